@@ -245,6 +245,8 @@ def run_C03(ctx, rng, tier, res, known):
         if q:
             rng.shuffle(cases)
             cases = cases[:6000]
+        # floats next to a boundary that is a short decimal (shortest rendering = an exact tie)
+        cases += gens.gen_renderings(rng, f, 0, extra_bits=gens.tie_neighbour_bits(rng, f))
         _mod().check_pf("C03", cases, ctx.cfgs, ctx.profiles, res, known, expect_bits=True)
     # Rust's own formatter as the rendering source (implementation side only: a test, not the proof; any
     # failure is a concrete replay): shortest / 9- resp. 17-digit / Display renderings parsed back through the
@@ -280,6 +282,12 @@ def run_C04(ctx, rng, tier, res, known):
         cases += gens.gen_thresholds(rng, f)
         cases += gens.gen_boundary(rng, f, 1500 if q else 30000)
         cases += gens.gen_seams(rng, f)[:: (3 if q else 1)]
+        # every big-integer code path end to end: long carry chains and zero-limb runs in the multiplication
+        # by 5^135, integer ties across limb boundaries, digit cuts
+        cases += gens.gen_near_tie_posexp(rng, f, 600 if q else 20000)
+        cases += gens.gen_sparse_posexp(rng, f, 300 if q else 5000)
+        cases += gens.gen_bigint_ties(rng, f, 600 if q else 20000)
+        cases += _mod().cases_long(rng, "quick", f)[:: (10 if q else 1)]
         # lengths 0 .. 10^6
         for n in ([0, 1, 19, 20, 768, 769, 770, 5000, 100000] + ([1000000] if True else [])):
             for e in (gens.I32MIN, -n, 0, gens.I32MAX):
@@ -552,7 +560,7 @@ def limb32_bigint_pass(ctx, rng, res, n=160):
                 if cap is None and I == "none" and op in ("shl", "shl_limbs", "bpow"):
                     continue        # heap shl_limbs compares against Vec::capacity(), which the model does not track
                 res.drift.append(dict(case=line[:400], cfg=c, target="i686", impl=I[:200], model=m[:200], note="32-bit-limb model differs"))
-            if s is not None and op not in ("compare", "hi64", "bit_length") and I not in ("none", "ctor-none"):
+            if s is not None and op not in EXACT_OPS and I not in ("none", "ctor-none"):
                 try:
                     got = sum(v << (32 * i) for i, v in enumerate(parse_l(I.split()[0])))
                 except ValueError:
@@ -561,7 +569,7 @@ def limb32_bigint_pass(ctx, rng, res, n=160):
                     res.viol.append(("inexact-32bit-limbs", dict(case=line, cfg=c, target="i686", impl=I[:300], expected_nat=s[:200])))
                 if cap is not None and I != "-" and len(parse_l(I.split()[0])) > cap:
                     res.viol.append(("over-capacity-32bit-limbs", dict(case=line, cfg=c, target="i686", impl=I[:300])))
-            elif s is not None and op in ("compare", "hi64", "bit_length") and I != s:
+            elif s is not None and op in EXACT_OPS and I != s:
                 res.viol.append(("wrong-32bit-limbs", dict(case=line, cfg=c, target="i686", impl=I, expected=s)))
         if ub is not None:
             if ub.get("is_ub"):
@@ -791,6 +799,8 @@ def to_nat(limbs):
         v += x << (64 * i)
     return v
 
+EXACT_OPS = ("compare", "hi64", "bit_length", "u64_to_hi64_1", "u64_to_hi64_2", "u32_to_hi64_1", "u32_to_hi64_2", "u32_to_hi64_3")
+
 def parse_l(s):
     return [] if s == "-" else [int(x) for x in s.split(",")]
 
@@ -849,7 +859,7 @@ def run_C12(ctx, rng, tier, res, known):
                         continue
                     res.drift.append(dict(case=line[:500], cfg=c, profile=p, impl=I[:300], model=m[:300]))
                 # predicate on the implementation's output: exact natural-number result
-                if s is not None and op not in ("compare", "hi64", "bit_length") and I not in ("none", "ctor-none"):
+                if s is not None and op not in EXACT_OPS and I not in ("none", "ctor-none"):
                     try:
                         got = to_nat(parse_l(I.split()[0]))
                     except ValueError:
@@ -858,7 +868,7 @@ def run_C12(ctx, rng, tier, res, known):
                         res.viol.append(("inexact", dict(case=line, cfg=c, profile=p, impl=I[:300], expected_nat=s[:200])))
                     if cap is not None and I != "-" and len(parse_l(I.split()[0])) > cap:
                         res.viol.append(("over-capacity", dict(case=line, cfg=c, profile=p, impl=I[:300])))
-                elif s is not None and op in ("compare", "hi64", "bit_length"):
+                elif s is not None and op in EXACT_OPS:
                     if I != s:
                         res.viol.append(("wrong", dict(case=line, cfg=c, profile=p, impl=I, expected=s)))
                 if I == "none":
@@ -1116,6 +1126,13 @@ def table_check():
     n += 1
     if to_nat(lp) != 5 ** int(d["LARGE_POW5_STEP"]) or int(d["LARGE_POW5_STEP"]) != 135:
         bad.append(dict(table="LARGE_POW5", index=0, actual=str(lp), expected="limbs of 5^135, step 135"))
+    # the same constant in the 32-bit-limb layout (compiled out on this host: read from the source text)
+    import gen_lean
+    lp32 = gen_lean.large_pow5_u32(vlib.REPO)
+    if lp32 is not None:
+        n += 1
+        if sum(v << (32 * i) for i, v in enumerate(lp32)) != 5 ** 135 or any(v >= 2 ** 32 for v in lp32):
+            bad.append(dict(table="LARGE_POW5 (32-bit limbs)", index=0, actual=str(lp32), expected="32-bit limbs of 5^135"))
     for cfg in ("std", "std+compact", "compact"):
         dd = parse_dumpfile(cfg)
         for f, key in (("f32", "F32.POW_FAST_PATH"), ("f64", "F64.POW_FAST_PATH")):
